@@ -31,15 +31,27 @@ pub struct VMap<K, V, S = ()> {
     _s: PhantomData<S>,
 }
 
+impl<K, V, S> VMap<K, V, S> {
+    // `[Self::NONE; CAP]` instead of `array::from_fn`: the latter writes through
+    // `MaybeUninit` raw pointers, which defeats constant propagation in CBMC.
+    const NONE: Option<(K, V)> = None;
+}
+
 impl<K, V, S> Default for VMap<K, V, S> {
     fn default() -> Self {
-        VMap { slots: std::array::from_fn(|_| None), len: 0, _s: PhantomData }
+        VMap { slots: [Self::NONE; CAP], len: 0, _s: PhantomData }
     }
 }
 
 impl<K: Clone, V: Clone, S> Clone for VMap<K, V, S> {
     fn clone(&self) -> Self {
-        VMap { slots: self.slots.clone(), len: self.len, _s: PhantomData }
+        let mut n: Self = VMap { slots: [Self::NONE; CAP], len: self.len, _s: PhantomData };
+        let mut i = 0;
+        while i < CAP {
+            n.slots[i] = self.slots[i].clone();
+            i += 1;
+        }
+        n
     }
 }
 
@@ -367,8 +379,17 @@ impl<K, V, S> VMap<K, V, S> {
         VMap { slots, len, _s: PhantomData }
     }
 }
-impl<K, S> VSet<K, S> {
+impl<K: Copy, S> VSet<K, S> {
     pub fn verif_from_slots(slots: [Option<K>; CAP]) -> Self {
-        VSet { m: VMap::verif_from_slots(slots.map(|o| o.map(|k| (k, ())))) }
+        let mut m: VMap<K, (), S> = VMap::default();
+        let mut i = 0;
+        while i < CAP {
+            if let Some(k) = slots[i] {
+                m.slots[i] = Some((k, ()));
+                m.len += 1;
+            }
+            i += 1;
+        }
+        VSet { m }
     }
 }
